@@ -162,9 +162,170 @@ func c20Concurrent(c *fw.Case, comp int) {
 	}
 }
 
+// c20CheckFile decodes one written file with the three readers and compares with what was written.
+func c20CheckFile(path string, recs [][]byte) string {
+	img, err := os.ReadFile(path)
+	if err != nil {
+		return err.Error()
+	}
+	pf, perr := rio.Parse(img)
+	if perr != nil {
+		return fmt.Sprintf("layout parser: %v", perr)
+	}
+	if len(pf.Recs) != len(recs) || pf.Tail != len(img) {
+		return fmt.Sprintf("layout parser sees %d records (+%d trailing bytes), written %d", len(pf.Recs), len(img)-pf.Tail, len(recs))
+	}
+	k := gokaitai.NewRecordioV4()
+	kerr := func() (err error) {
+		defer func() {
+			if p := recover(); p != nil {
+				err = fmt.Errorf("panic: %v", p)
+			}
+		}()
+		return k.Read(kaitai.NewStream(bytes.NewReader(img)), nil, k)
+	}()
+	if kerr != nil {
+		return fmt.Sprintf("Kaitai reader: %v", kerr)
+	}
+	if len(k.Record) != len(recs) {
+		return fmt.Sprintf("Kaitai reader sees %d records, written %d", len(k.Record), len(recs))
+	}
+	rd, err := recordio.NewFileReaderWithPath(path)
+	if err == nil {
+		err = rd.Open()
+	}
+	if err != nil {
+		return "native reader: " + err.Error()
+	}
+	defer rd.Close()
+	for i, kr := range k.Record {
+		got, err := rd.ReadNext()
+		if err != nil || !sameRec(got, recs[i]) {
+			return fmt.Sprintf("native reader, record %d: (%s,%v) written %s", i, fw.Hex(got), err, fw.Hex(recs[i]))
+		}
+		if (kr.RecordNil == 1) != (recs[i] == nil) {
+			return fmt.Sprintf("Kaitai reader, record %d: nil flag %d, written nil=%v", i, kr.RecordNil, recs[i] == nil)
+		}
+	}
+	if _, err := rd.ReadNext(); !errors.Is(err, io.EOF) {
+		return fmt.Sprintf("native reader: %v instead of EOF after the last record", err)
+	}
+	return ""
+}
+
+// c20Interleaved: a writer is closed TWICE (the second Close must fail and do nothing), then two writers are open side
+// by side and written to alternately from one goroutine; both files are decoded with the three readers.
+func c20Interleaved(c *fw.Case, comp int) {
+	r := c.R
+	w0, err := recordio.NewFileWriter(recordio.Path(filepath.Join(c.Dir, "w0.rio")), recordio.CompressionType(comp))
+	if err == nil {
+		err = w0.Open()
+	}
+	if err != nil {
+		c.Violate("harness/write", "%v", err)
+		return
+	}
+	_, _ = w0.Write([]byte("first"))
+	if err := w0.Close(); err != nil {
+		c.Violate("harness/write", "Close: %v", err)
+		return
+	}
+	if err := w0.Close(); err == nil {
+		c.Obs("second_close_returned_nil", 1)
+	}
+	c.Obs("writers_closed_twice", 1)
+	var ws [2]recordio.WriterI
+	var recs [2][][]byte
+	for i := range ws {
+		o := []recordio.FileWriterOption{recordio.Path(filepath.Join(c.Dir, fmt.Sprintf("side%d.rio", i))), recordio.CompressionType(comp)}
+		if r.Intn(2) == 0 {
+			o = append(o, recordio.BufferSizeBytes(gen.Pick(r, 64, 4096)))
+		}
+		w, err := recordio.NewFileWriter(o...)
+		if err == nil {
+			err = w.Open()
+		}
+		if err != nil {
+			c.Violate("harness/write", "%v", err)
+			return
+		}
+		ws[i] = w
+	}
+	for n := 0; n < 60; n++ {
+		i := r.Intn(2)
+		var rec []byte
+		switch r.Intn(4) {
+		case 0:
+			rec = nil
+		case 1:
+			rec = []byte{}
+		default:
+			rec = gen.Payload(r, 120)
+		}
+		if _, err := ws[i].Write(rec); err != nil {
+			c.Violate("harness/write", "%v", err)
+			return
+		}
+		recs[i] = append(recs[i], rec)
+	}
+	for i := range ws {
+		if err := ws[i].Close(); err != nil {
+			c.Violate("harness/write", "Close: %v", err)
+			return
+		}
+	}
+	for i := range ws {
+		if bad := c20CheckFile(filepath.Join(c.Dir, fmt.Sprintf("side%d.rio", i)), recs[i]); bad != "" {
+			c.Violate("recordio/file-written-next-to-another-open-writer", "compression=%d: file %d of two writers that were open side by side (after another writer had been closed twice): %s", comp, i, bad)
+			return
+		}
+	}
+	c.Obs("files_written_side_by_side", 2)
+}
+
+// c20AcceptedCodes: every compression code the writer accepts must be declared in the published schema.
+func c20AcceptedCodes(c *fw.Case) {
+	se, err := c20SchemaEnum()
+	if err != nil {
+		return
+	}
+	for code := 0; code < 64; code++ {
+		w, err := recordio.NewFileWriter(recordio.Path(filepath.Join(c.Dir, "probe.rio")), recordio.CompressionType(code))
+		if err != nil {
+			continue
+		}
+		if err := w.Open(); err != nil {
+			_ = w.Close()
+			continue
+		}
+		_, werr := w.Write([]byte("probe"))
+		cerr := w.Close()
+		if werr != nil || cerr != nil {
+			continue
+		}
+		c.Obs("compression_codes_the_writer_accepts", 1)
+		if _, ok := se[code]; !ok {
+			c.Violate("kaitai/compression-code-unknown-or-misnamed-in-schema/accepted-by-the-writer", "the writer accepts compression code %d and writes a file with it; recordio_v4.ksy declares only %v", code, se)
+			return
+		}
+	}
+}
+
 func runC20(c *fw.Case) {
 	r := c.R
 	comp := c.Idx % 4
+	if c.Idx == 0 {
+		c20AcceptedCodes(c)
+		if c.Violated() {
+			return
+		}
+	}
+	if c.Idx%6 == 2 {
+		c20Interleaved(c, comp)
+		if c.Violated() {
+			return
+		}
+	}
 	if c.Idx%6 == 5 {
 		c20Concurrent(c, comp)
 		if c.Violated() {
